@@ -231,6 +231,9 @@ class Filenames(object):
                         self.variables.clear()
                         self.variables.update(g)
                         yield result
+                        # The give-up bound below counts the passes made
+                        # for one request, not over the generator's life
+                        passes = 0
                     else:
                         continue
                     break
